@@ -12,7 +12,7 @@ from ..sym import var as V, const as C, add, sub, tmin, tmax, scale
 from ..symexec import Exec, Env, subst_expr, norm_minmax, assigned_vars, reads_of
 from . import kern
 from ..model import calls_in
-from .iterspace import paths_increments
+from .iterspace import paths_increments, _run_until as iterspace_run_until
 
 INF = float('inf')
 
@@ -261,11 +261,19 @@ def analyse_writer(m, fname):
             pass
         # the position variable: the var incremented in lock-step with the column variable in the main loop
         cands = [v for v in assigned_vars(main.body) if paths_increments(main.body, v) == {1} and v != colvar]
-        posvars = [v for v in cands if any(x == ('var', v) for t in walk_stmts(main.body) if t.k == 'assign' and t.target[0] == 'idx' for x in walk_expr(t.target))]
+        # store subscripts may go through a local holding the position (`cur = base + pos; wps[cur] = ...`): read them with such locals resolved
+        ldefs = {}
+        for t in main.body:
+            if t.k == 'assign' and t.target[0] == 'var' and t.d.get('aug') is None:
+                ldefs.setdefault(t.target[1], []).append(t.value)
+        ldefs = {k_: v_[0] for k_, v_ in ldefs.items() if len(v_) == 1 and len([1 for t in walk_stmts(main.body) if t.k == 'assign' and t.target == ('var', k_)]) == 1}
+        def _tgt(t):
+            return subst_expr(t.target, ldefs)
+        posvars = [v for v in cands if any(x == ('var', v) for t in walk_stmts(main.body) if t.k == 'assign' and t.target[0] == 'idx' for x in walk_expr(_tgt(t)))]
         R.lockstep = paths_increments(main.body, posvars[0]) if len(posvars) == 1 else None
         if len(posvars) != 1:
             # lock-step broken or position variable not unique: report through the rule
-            allpos = [v for v in assigned_vars(main.body) if any(x == ('var', v) for t in walk_stmts(main.body) if t.k == 'assign' and t.target[0] == 'idx' for x in walk_expr(t.target))]
+            allpos = [v for v in assigned_vars(main.body) if v not in ldefs and any(x == ('var', v) for t in walk_stmts(main.body) if t.k == 'assign' and t.target[0] == 'idx' for x in walk_expr(_tgt(t)))]
             R.wvar = allpos[0] if allpos else None
             R.lockstep = paths_increments(main.body, R.wvar) if R.wvar else None
         else:
@@ -477,13 +485,27 @@ def rule_wps_writers(ctx, m, affinity=False, tier='quick'):
                       'region %s must cover rows [%s, %s); found [%s, %s)' % (R.name, sym.show(wl), sym.show(wh), sym.show(R.lo), sym.show(R.hi)), R.loop.line)
         # row bases: initial values 0 / p.width, closing pair in every region, nothing else
         e0 = info['prologue_env']
+        rb, pb = regs[0].rowbase, regs[0].prevbase
+        ok0 = e0.get(pb) == ('num', 0) and e0.get(rb) == ('attr', ('var', 'p'), 'width')
+        okp = True
+        for R in regs:
+            top = R.loop.body
+            okp = okp and R.rowbase == rb and R.prevbase == pb and len(top) >= 2 and top[-1].k == 'assign' and top[-1].target == ('var', rb) and top[-1].d.get('aug') == '+' \
+                and top[-2].k == 'assign' and top[-2].target == ('var', pb) and top[-2].value == ('var', rb) \
+                and len([s for s in walk_stmts(top) if s.k == 'assign' and s.target in (('var', rb), ('var', pb))]) == 2
+        ctx.check(ok0 and okp, 'R-MAP', f.file, fname, 'row bases',
+                  'row base bookkeeping must be: prev = 0, cur = width before row 0, and `prev = cur; cur += width` as the last two statements of every row '
+                  '(so cur = (ri + 1) * width, prev = ri * width)', f.line)
+        for R in regs:
+            _region_rules(ctx, R, amap, pdefs, affinity)
         if not affinity:
             # PrunedDTW vs psi-relaxation (same two obligations as for the rolling kernels, kern._prune_vs_psi)
-            eci = e0.get('ec')
+            ecname = getattr(regs[0], 'ecv', None) or 'ec'
+            eci = e0.get(ecname)
             okec = eci is not None and any(x == ('attr', ('var', 'settings'), 'psi_2b') for x in walk_expr(eci))
             ctx.check(okec, 'R-PRUNE', f.file, fname, 'initial end column vs psi_2b',
-                      'pruning starts with end column ec = %s, but with psi_2b > 0 the first row has free starts up to column psi_2b: if cell (0, 0) exceeds max_dist the row is '
-                      'abandoned before those cells are computed, and the pruned result differs from the unpruned one' % (fmt(eci) if eci is not None else None), f.line,
+                      'pruning starts with end column %s = %s, but with psi_2b > 0 the first row has free starts up to column psi_2b: if cell (0, 0) exceeds max_dist the row is '
+                      'abandoned before those cells are computed, and the pruned result differs from the unpruned one' % (ecname, fmt(eci) if eci is not None else None), f.line,
                       facts={'witness': {'PSI2B': 1}})
             for R in regs[:2]:
                 guards = ' '.join(fmt(c) for s_, e_, path in R.skip_loops for c in path)
@@ -508,19 +530,6 @@ def rule_wps_writers(ctx, m, affinity=False, tier='quick'):
                           'rows ri < psi_1b may start for free in column 0 (their first position is preset to 0), but the carried start column sc is applied to them '
                           'unconditionally (skip guarded by `%s`): the free start is skipped and the pruned result differs from the unpruned one' % guards[:80], R.loop.line,
                           facts={'witness': {'PSI1B': 2, 'ri': 1, 'sc': 1}})
-        rb, pb = regs[0].rowbase, regs[0].prevbase
-        ok0 = e0.get(pb) == ('num', 0) and e0.get(rb) == ('attr', ('var', 'p'), 'width')
-        okp = True
-        for R in regs:
-            top = R.loop.body
-            okp = okp and R.rowbase == rb and R.prevbase == pb and len(top) >= 2 and top[-1].k == 'assign' and top[-1].target == ('var', rb) and top[-1].d.get('aug') == '+' \
-                and top[-2].k == 'assign' and top[-2].target == ('var', pb) and top[-2].value == ('var', rb) \
-                and len([s for s in walk_stmts(top) if s.k == 'assign' and s.target in (('var', rb), ('var', pb))]) == 2
-        ctx.check(ok0 and okp, 'R-MAP', f.file, fname, 'row bases',
-                  'row base bookkeeping must be: prev = 0, cur = width before row 0, and `prev = cur; cur += width` as the last two statements of every row '
-                  '(so cur = (ri + 1) * width, prev = ri * width)', f.line)
-        for R in regs:
-            _region_rules(ctx, R, amap, pdefs, affinity)
         # band per region: inside the region's rows the column limits equal the documented band
         for R in regs:
             guards = [sub(V('ri'), R.lo), sub(sub(R.hi, V('ri')), C(1)), sub(sub(V('L1'), V('ri')), C(1))]
@@ -749,8 +758,12 @@ def _prune_region(ctx, R, F):
     ctx.check(op == '>' and thr_ok, 'R-PRUNE', R.file, fname, 'region %s prune comparator' % R.name,
               'a cell may be pruned only when `cell > p.max_dist`; found `cell %s %s`' % (op, fmt(thr)), brk[0][2].line)
     last = path[-1]
-    okb = last[0] == 'bin' and last[1] == '>=' and last[2] == ('var', 'j') and last[3][0] == 'var' and last[3][1].startswith('ec')
-    ctx.check(okb, 'R-PRUNE', R.file, fname, 'region %s prune break guard' % R.name, 'the early break must be guarded by `ci >= ec`; found %s' % fmt(last)[:100], brk[0][2].line)
+    # roles, not names: ec = the carried variable the break compares the column with; ec_next = the variable copied into it after the column loop;
+    # sc = the carried bound of the skip loop; smaller_found = the flag guarding the sc update
+    okb = last[0] == 'bin' and last[1] == '>=' and last[2] == ('var', 'j') and last[3][0] == 'var'
+    ctx.check(okb, 'R-PRUNE', R.file, fname, 'region %s prune break guard' % R.name, 'the early break must be guarded by `ci >= ec` (ec carried from the previous row); found %s' % fmt(last)[:100], brk[0][2].line)
+    ecv = last[3][1].split('@')[0] if okb else None
+    R.ecv = ecv
     env_out = R.col_env or {}
     j1 = ('bin', '+', ('var', 'j'), ('num', 1))
 
@@ -763,29 +776,39 @@ def _prune_region(ctx, R, F):
         if kk == 'keep':
             return on_keep(v[2]) and on_prune(v[3])
         return False
-    scv = [v for v in env_out if v.startswith('sc')]
-    ok = False
-    for v in scv:
-        ok = ok or shape(env_out[v], lambda x: x[0] == 'cond' and x[1][0] == 'un' and x[1][1] == 'not' and x[2] == j1 and x[3] == ('var', v + '@in'), lambda x: x == ('var', v + '@in'))
-    ctx.check(ok, 'R-PRUNE', R.file, fname, 'region %s sc update' % R.name, 'start-column update must be `if pruned and no smaller value seen yet: sc = ci + 1`', R.main.line)
-    ok = False
-    for v in env_out:
-        if v.startswith('ec_next'):
-            ok = shape(env_out[v], lambda x: x == ('var', v + '@in'), lambda x: x == j1)
-    ctx.check(ok, 'R-PRUNE', R.file, fname, 'region %s ec_next update' % R.name, 'ec_next must become ci + 1 exactly on kept cells', R.main.line)
-    ok = False
-    for v in env_out:
-        if v.startswith('smaller_found'):
-            ok = shape(env_out[v], lambda x: x == ('var', v + '@in'), kern._truthy)
-    ctx.check(ok, 'R-PRUNE', R.file, fname, 'region %s smaller_found update' % R.name, 'smaller_found must become true exactly on kept cells', R.main.line)
-    pre = R.renv
-    ctx.check(kern._falsy(pre.get('smaller_found', ('none',))) and pre.get('ec_next') == ('var', 'ri'), 'R-PRUNE', R.file, fname, 'region %s row reset' % R.name,
-              'each row must start with smaller_found = false and ec_next = ri', R.loop.line)
     post = R.penv or {}
-    ctx.check(post.get('ec') == ('var', 'ec_next@out'), 'R-PRUNE', R.file, fname, 'region %s ec update' % R.name, '`ec = ec_next` after the column loop is missing', R.loop.line)
-    # skip loop bound is sc
-    oks = len(R.skip_loops) == 1 and R.skip_loops[0][0].hi == ('var', 'sc')
-    ctx.check(oks, 'R-PRUNE', R.file, fname, 'region %s skip to sc' % R.name, 'columns below the pruning start column sc must be skipped (filled with inf) before the column loop', R.loop.line)
+    pre = R.renv
+    ecnv = None
+    if ecv is not None:
+        pv = post.get(ecv)
+        if pv is not None and pv[0] == 'var' and pv[1].endswith('@out'):
+            ecnv = pv[1][:-4]
+    ctx.check(ecnv is not None, 'R-PRUNE', R.file, fname, 'region %s ec update' % R.name, '`ec = ec_next` after the column loop is missing', R.loop.line)
+    ok = ecnv is not None and shape(env_out.get(ecnv), lambda x: x == ('var', ecnv + '@in'), lambda x: x == j1)
+    ctx.check(ok, 'R-PRUNE', R.file, fname, 'region %s ec_next update' % R.name, 'ec_next must become ci + 1 exactly on kept cells', R.main.line)
+    # sc: bound of the skip loop
+    scv = None
+    if len(R.skip_loops) == 1 and R.skip_loops[0][0].hi[0] == 'var':
+        scv = R.skip_loops[0][0].hi[1]
+    ctx.check(scv is not None, 'R-PRUNE', R.file, fname, 'region %s skip to sc' % R.name,
+              'columns below the pruning start column sc must be skipped (filled with inf) before the column loop', R.loop.line)
+    sfv = None
+    ok = False
+    if scv is not None:
+        v = env_out.get(scv)
+        if v is not None and v[0] == 'cond':
+            kk = kern._is_prune(v[1], stored)
+            inner_c = v[2] if kk == 'prune' else (v[3] if kk == 'keep' else None)
+            other = v[3] if kk == 'prune' else v[2]
+            if inner_c is not None and other == ('var', scv + '@in') and inner_c[0] == 'cond' and inner_c[1][0] == 'un' and inner_c[1][1] == 'not' \
+                    and inner_c[1][2][0] == 'var' and inner_c[1][2][1].endswith('@in') and inner_c[2] == j1 and inner_c[3] == ('var', scv + '@in'):
+                ok = True
+                sfv = inner_c[1][2][1][:-3]
+    ctx.check(ok, 'R-PRUNE', R.file, fname, 'region %s sc update' % R.name, 'start-column update must be `if pruned and no smaller value seen yet: sc = ci + 1`', R.main.line)
+    ok = sfv is not None and shape(env_out.get(sfv), lambda x: x == ('var', sfv + '@in'), kern._truthy)
+    ctx.check(ok, 'R-PRUNE', R.file, fname, 'region %s smaller_found update' % R.name, 'smaller_found must become true exactly on kept cells', R.main.line)
+    okr = sfv is not None and ecnv is not None and kern._falsy(pre.get(sfv, ('none',))) and pre.get(ecnv) == ('var', 'ri')
+    ctx.check(okr, 'R-PRUNE', R.file, fname, 'region %s row reset' % R.name, 'each row must start with smaller_found = false and ec_next = ri', R.loop.line)
 
 
 def _continuity(ctx, fname, regs, pdefs):
@@ -851,22 +874,39 @@ def rule_best_path_py(ctx, m):
     if len(loop) != 1:
         raise AnalysisError('unrecognised shape: dtw.best_path loop')
     loop = loop[0]
-    ctx.check(fmt(loop.cond) == '((i > 0) and (j > 0))', 'R-REC', pm.path, 'best_path', 'loop guard', 'back-tracking continues while i > 0 and j > 0', loop.line)
-    sel = [s for s in loop.body if s.k == 'assign' and s.target == ('var', 'c')]
-    ok = False
-    cands = None
-    if sel and sel[0].value[0] == 'call' and sel[0].value[1] == ('var', 'argm') and sel[0].value[2] and sel[0].value[2][0][0] == 'list':
-        cands = sel[0].value[2][0][1]
+    # roles: (i, j) from the loop guard `i > 0 and j > 0`; the selection variable and selector from `<c> = <argm>([3 candidates])`; the matrix is the first parameter
+    lc_ = loop.cond
+    okg = lc_[0] == 'bin' and lc_[1] == 'and' and all(x[0] == 'bin' and x[1] == '>' and x[2][0] == 'var' and x[3] == ('num', 0) for x in (lc_[2], lc_[3]))
+    ctx.check(okg, 'R-REC', pm.path, 'best_path', 'loop guard', 'back-tracking continues while i > 0 and j > 0', loop.line)
+    if not okg:
+        return
+    iv, jv = lc_[2][2][1], lc_[3][2][1]
+    mat = ('var', f.args[0])
+    # one symbolic pass over the loop body: the selection `<selector>([three candidates])` with the candidates resolved to matrix reads, and the
+    # position after the step as a function of the selected index
+    from ..symexec import peval_fields
+    bex = Exec()
+    benv = bex.run(loop.body, Env())
+    if benv is None:
+        raise AnalysisError('unrecognised shape: dtw.best_path loop body always leaves')
+    selcalls = []
+    for v in list(benv.values()) + [c for e in bex.events for c in e[1]]:
+        for x in walk_expr(v):
+            if x[0] == 'call' and x[1][0] == 'var' and len(x[2]) == 1 and x[2][0][0] == 'list' and len(x[2][0][1]) == 3 and x not in selcalls:
+                selcalls.append(x)
+    cands = selcalls[0][2][0][1] if len(selcalls) == 1 else None
+    selector = selcalls[0][1] if len(selcalls) == 1 else None
     table = {}
+    penname = f.args[4] if len(f.args) > 4 else 'penalty'
     if cands is not None and len(cands) == 3:
         for k, cnd in enumerate(cands):
             rd = cnd
             pen = False
             if cnd[0] == 'bin' and cnd[1] == '+':
-                rd, pen = cnd[2], cnd[3] == ('var', 'penalty')
-            if rd[0] == 'idx' and rd[1] == ('var', 'paths') and rd[2][0] == 'tuple':
+                rd, pen = cnd[2], cnd[3] == ('var', penname)
+            if rd[0] == 'idx' and rd[1] == mat and rd[2][0] == 'tuple':
                 off = []
-                for comp, base in zip(rd[2][1], ('i', 'j')):
+                for comp, base in zip(rd[2][1], (iv, jv)):
                     if comp == ('var', base):
                         off.append(0)
                     elif comp == ('bin', '-', ('var', base), ('num', 1)):
@@ -875,33 +915,36 @@ def rule_best_path_py(ctx, m):
                         off.append(None)
                 table[k] = (tuple(off), pen)
     moves = {}
-    cur = [s for s in loop.body if s.k == 'if' and s.cond[0] == 'bin' and s.cond[2] == ('var', 'c')]
-    node = cur[0] if cur else None
-    while node is not None:
-        kk = node.cond[3][1] if node.cond[3][0] == 'num' else None
-        di = dj = 0
-        for t in node.then:
-            if t.k == 'assign' and t.target == ('var', 'i') and t.value == ('bin', '-', ('var', 'i'), ('num', 1)):
-                di = -1
-            if t.k == 'assign' and t.target == ('var', 'j') and t.value == ('bin', '-', ('var', 'j'), ('num', 1)):
-                dj = -1
-            if t.k == 'assign' and t.target[0] == 'tuple' and t.value[0] == 'tuple':
-                for tg, vv in zip(t.target[1], t.value[1]):
-                    if tg == ('var', 'i') and vv == ('bin', '-', ('var', 'i'), ('num', 1)):
-                        di = -1
-                    if tg == ('var', 'j') and vv == ('bin', '-', ('var', 'j'), ('num', 1)):
-                        dj = -1
-        moves[kk] = (di, dj)
-        node = node.els[0] if len(node.els) == 1 and node.els[0].k == 'if' else None
+    if len(selcalls) == 1:
+        for kk in (0, 1, 2):
+            def fix(e, kk=kk):
+                # the selected index is kk: decide every comparison of the selection with a number
+                def f_(x):
+                    if x[0] == 'bin' and x[1] in ('==', '!=') and x[2] == selcalls[0] and x[3][0] == 'num':
+                        return ('bool', (x[3][1] == kk) == (x[1] == '=='))
+                    return x
+                from ..inline import map_expr
+                return peval_fields(map_expr(e, f_), {})
+            d_ = []
+            for nm_ in (iv, jv):
+                v = fix(benv.get(nm_, ('var', nm_)))
+                d_.append(0 if v == ('var', nm_) else (-1 if v == ('bin', '-', ('var', nm_), ('num', 1)) else None))
+            moves[kk] = tuple(d_)
     want_tab = {0: ((-1, -1), False), 1: ((-1, 0), True), 2: ((0, -1), True)}
     okt = table == want_tab and moves == {k: v[0] for k, v in want_tab.items()}
     ctx.check(okt, 'R-REC', pm.path, 'best_path', 'step table',
               'candidate k of the argmin must be (diagonal, up + penalty, left + penalty) and choosing k must move to that same predecessor; candidates %s, moves %s'
               % (sorted(table.items()), sorted(moves.items(), key=str)), loop.line)
-    skips = [s for s in walk_stmts(f.body) if s.k == 'if' and fmt(s.cond) == '(paths[(i, j)] != -1)']
+    skips = [s for s in walk_stmts(f.body) if s.k == 'if' and s.cond == ('bin', '!=', ('idx', mat, ('tuple', (('var', iv), ('var', jv)))), ('num', -1))]
     ctx.check(len(skips) == 2, 'R-REC', pm.path, 'best_path', 'relaxed cells skipped', 'cells marked -1 (psi relaxation) must not be appended to the path', f.line)
-    sel_fn = [s for s in f.body if s.k == 'if' and fmt(s.cond) == 'use_max']
-    ok = bool(sel_fn) and fmt(sel_fn[0].then[0].value) == 'argmax' and fmt(sel_fn[0].els[0].value) == 'argmin'
+    # the selector is argmax exactly when use_max is set
+    pex = Exec()
+    penv = Env()
+    iterspace_run_until(pex, f.body, penv, loop)
+    selv = penv.get(selector[1]) if selector is not None and selector[0] == 'var' else None
+    flag = f.args[3] if len(f.args) > 3 else 'use_max'
+    ok = selv is not None and peval_fields(subst_expr(selv, {flag: ('bool', True)}), {}) == ('var', 'argmax') and \
+        peval_fields(subst_expr(selv, {flag: ('bool', False)}), {}) == ('var', 'argmin')
     ctx.check(ok, 'R-REC', pm.path, 'best_path', 'extremum selection', 'argmin for distances, argmax only when use_max is requested', f.line)
     # best_path2: the three guarded moves
     g = pm.funcs.get('best_path2')
@@ -926,6 +969,11 @@ def rule_best_path_c(ctx, m, tier='quick'):
             raise AnalysisError('anchor vanished: C function %s' % fn)
         loops = [s for s in walk_stmts(f.body) if s.k == 'while']
         ctx.check(len(loops) >= 3, 'R-ALLOC', f.file, fn, 'region loops', 'expected the three back-tracking loops (regions D, C, A-B), found %d' % len(loops), f.line)
+        if len(loops) < 3:
+            continue
+        ro = _bt_roles(f, loops)
+        outs = [pn for pn, pt in f.params if pt.replace(' ', '') in ('idx_t*', 'size_t*', 'ssize_t*', 'Py_ssize_t*')][:2]     # the two index arrays
+        outs_v = tuple(('var', o) for o in outs)
         for li, lp in enumerate(loops):
             # writes per iteration
             def writes(stmts):
@@ -936,7 +984,7 @@ def rule_best_path_c(ctx, m, tier='quick'):
                     for s in ss:
                         nxt = []
                         for a in accs:
-                            if s.k == 'assign' and s.target[0] == 'idx' and s.target[1] in (('var', 'i1'), ('var', 'i2')):
+                            if s.k == 'assign' and s.target[0] == 'idx' and s.target[1] in outs_v:
                                 nxt.append(a + 1)
                             elif s.k == 'if':
                                 nxt.extend(walk(s.then, a))
@@ -954,19 +1002,20 @@ def rule_best_path_c(ctx, m, tier='quick'):
             ctx.check(max(w) <= 2, 'R-ALLOC', f.file, fn, 'loop %d writes per step' % li,
                       'each back-tracking step may append one (i1, i2) pair; a path writes %s entries in one iteration' % max(w), lp.line)
             # progress: every path through the body decreases rip or cip (or leaves)
-            dec = _progress(lp.body)
+            dec = _progress(lp.body, (('var', ro['rip']), ('var', ro['cip'])))
             ctx.check(dec, 'R-ALLOC', f.file, fn, 'loop %d progress' % li,
                       'every iteration must decrease rip and/or cip (otherwise the index arrays of l1 + l2 entries overflow / the loop does not terminate)', lp.line)
         # the index counter
-        cnt = [s for s in walk_stmts(f.body) if s.k == 'assign' and s.target == ('var', 'i') and s.d.get('aug') == '+']
-        idxw = [s for s in walk_stmts(f.body) if s.k == 'assign' and s.target[0] == 'idx' and s.target[1] == ('var', 'i1')]
-        ok = all(s.target[2] == ('var', 'i') for s in idxw) and len(cnt) >= len(idxw) - 1
+        idxw = [s for s in walk_stmts(f.body) if s.k == 'assign' and s.target[0] == 'idx' and outs_v and s.target[1] == outs_v[0]]
+        cvar = idxw[0].target[2] if idxw else None
+        cnt = [s for s in walk_stmts(f.body) if s.k == 'assign' and s.target == cvar and s.d.get('aug') == '+']
+        ok = bool(idxw) and cvar is not None and cvar[0] == 'var' and all(s.target[2] == cvar for s in idxw) and len(cnt) >= len(idxw) - 1
         ctx.check(ok, 'R-ALLOC', f.file, fn, 'path counter', 'path entries must be written at i1[i], i2[i] with i advanced after each pair', f.line)
         ctx.sample({'back-tracker': fn, 'loops': len(loops)})
 
 
-def _progress(body):
-    """All fall-through paths decrease rip or cip."""
+def _progress(body, movers=(('var', 'rip'), ('var', 'cip'))):
+    """All fall-through paths decrease the row or the column counter."""
     ok = [True]
 
     def walk(ss, dec):
@@ -974,7 +1023,7 @@ def _progress(body):
         for s in ss:
             nxt = []
             for a in accs:
-                if s.k == 'assign' and s.target in (('var', 'rip'), ('var', 'cip')) and s.d.get('aug') == '-':
+                if s.k == 'assign' and s.target in movers and s.d.get('aug') == '-':
                     nxt.append(True)
                 elif s.k == 'if':
                     nxt.extend(walk(s.then, a))
@@ -1043,6 +1092,8 @@ def rule_affinity(ctx, m, tier='quick'):
             kern._equiv_cases(ctx, 'R-BAND', F.file, F.name, 'band lower limit (only_triu)', lo, want, 'py', 'band lower limit only_triu', F.inner_line)
         if triu:
             continue
+        # a store whose value is selected by a conditional expression on tau (the arm held in a local) counts as one store per arm
+        F.stores = [st2 for st in F.stores for st2 in _split_on(st, 'tau')]
         ctx.check(len(F.stores) == 2, 'R-REC', F.file, F.name, 'two arms', 'the affinity recurrence has a below-tau and an above-tau arm', F.inner_line)
         arms = {}
         for st in F.stores:
@@ -1096,6 +1147,25 @@ def rule_affinity(ctx, m, tier='quick'):
         info = analyse_writer(m, fname)
         for R in info['regions']:
             _affinity_region(ctx, R, info['amap'])
+
+
+def _split_on(st, name):
+    """A store event whose value contains a conditional expression testing `name` -> one store event per branch (path extended)."""
+    def first_cond(e):
+        for x in walk_expr(e):
+            if x[0] == 'cond' and any(y == ('var', name) for y in walk_expr(x[1])):
+                return x
+        return None
+    c = first_cond(st[3])
+    if c is None:
+        return [st]
+    out = []
+    for test, val in ((c[1], c[2]), (('un', 'not', c[1]), c[3])):
+        while test[0] == 'un' and test[1] == 'not' and test[2][0] == 'un' and test[2][1] == 'not':
+            test = test[2][2]
+        v = kern._replace(st[3], {c: val})
+        out.extend(_split_on((st[0], tuple(st[1]) + (test,), st[2], v) + tuple(st[4:]), name))
+    return out
 
 
 def _affinity_region(ctx, R, amap):
@@ -1431,6 +1501,55 @@ def _report(ctx, r, rule, file, fname, construct, inst, what, line):
 
 
 # ------------------------------------------------------------------------------------------ back-tracking move tables (C)
+def _bt_moves(body, ro):
+    """Effect of one move arm on (position, row counter, column counter, row bases)."""
+    mv = {'Q': 0, 'rip': 0, 'cip': 0, 'rowshift': False}
+    for s in body:
+        if s.k == 'assign' and s.target == ('var', ro['Q']):
+            t = sym.from_ir(s.value, atom=lambda x: 'Q' if x == ('var', ro['Q']) else None)
+            mv['Q'] = t[2] if t[0] == 'lin' and dict(t[1]).get('Q') == 1 else None
+        for nm in ('rip', 'cip'):
+            if s.k == 'assign' and s.target == ('var', ro[nm]):
+                t = sym.from_ir(s.value, atom=lambda x, nm=nm: 'V' if x == ('var', ro[nm]) else None)
+                if t[0] == 'lin' and dict(t[1]).get('V') == 1:
+                    mv[nm] += t[2]
+                else:
+                    mv[nm] = None
+        if s.k == 'assign' and s.target == ('var', ro['RW']) and s.value == ('var', ro['RWP']):
+            mv['rowshift'] = True
+    return mv
+
+
+def _bt_roles(f, loops):
+    """Role names of a back-tracker: row base of the current / previous row, in-row position, row and column counters -- found from the
+    shape of the code (the guard `rip > .. and cip > 0`, the current-cell read wps[RW + Q], the move `RW = RWP`), not from the spelling."""
+    roles = {}
+    c = loops[0].cond
+    if c[0] == 'bin' and c[1] == 'and' and c[2][0] == 'bin' and c[2][2][0] == 'var' and c[3][0] == 'bin' and c[3][2][0] == 'var':
+        roles['rip'], roles['cip'] = c[2][2][1], c[3][2][1]
+    # RW = RWP assignment inside the loop
+    for s_ in walk_stmts(loops[0].body):
+        if s_.k == 'assign' and s_.target[0] == 'var' and s_.value[0] == 'var' and s_.d.get('aug') is None:
+            a, b = s_.target[1], s_.value[1]
+            # confirm: some wps read uses a + X and some uses b + X
+            ra = any(x[0] == 'idx' and x[1] == ('var', 'wps') and any(y == ('var', a) for y in walk_expr(x[2])) for t in walk_stmts(loops[0].body) for e in stmt_exprs(t) for x in walk_expr(e))
+            rb_ = any(x[0] == 'idx' and x[1] == ('var', 'wps') and any(y == ('var', b) for y in walk_expr(x[2])) for t in walk_stmts(loops[0].body) for e in stmt_exprs(t) for x in walk_expr(e))
+            if ra and rb_:
+                roles['RW'], roles['RWP'] = a, b
+                break
+    if 'RW' in roles:
+        for t in walk_stmts(loops[0].body):
+            for e in stmt_exprs(t):
+                for x in walk_expr(e):
+                    if x[0] == 'idx' and x[1] == ('var', 'wps') and x[2][0] == 'bin' and x[2][1] == '+':
+                        vs = [y[1] for y in (x[2][2], x[2][3]) if y[0] == 'var']
+                        if roles['RW'] in vs and len(vs) == 2:
+                            roles['Q'] = [v for v in vs if v != roles['RW']][0]
+    if not all(k in roles for k in ('rip', 'cip', 'RW', 'RWP', 'Q')):
+        raise AnalysisError('unrecognised shape: back-tracker %s (roles found: %s)' % (f.name, sorted(roles)))
+    return roles
+
+
 def rule_best_path_moves(ctx, m):
     """In each of the three back-tracking loops (regions D, C, A-B) the candidates read and the position updates agree
     with the writer's per-row layout shift Delta of that region: diag = (prev row, Q + Delta - 1), up = (prev row,
@@ -1453,11 +1572,12 @@ def rule_best_path_moves(ctx, m):
             ctx.violation('R-MAP', f.file, fn, 'back-tracking loops', 'expected three region loops, found %d' % len(loops), f.line)
             continue
         maxv = fn.endswith('affinity')
+        ro = _bt_roles(f, loops)
         for k, lp in enumerate(loops):
             Delta = shifts[k]
             # guard
             c = lp.cond
-            okg = c[0] == 'bin' and c[1] == 'and' and c[2] == ('bin', '>', ('var', 'rip'), guards_want[k]) and c[3] == ('bin', '>', ('var', 'cip'), ('num', 0))
+            okg = c[0] == 'bin' and c[1] == 'and' and c[2] == ('bin', '>', ('var', ro['rip']), guards_want[k]) and c[3] == ('bin', '>', ('var', ro['cip']), ('num', 0))
             ctx.check(okg, 'R-MAP', f.file, fn, 'loop %s guard' % names[k], 'the %s loop must run while rip > %s and cip > 0; found %s' % (names[k], fmt(guards_want[k]), fmt(c)), lp.line)
             chain = [s for s in lp.body if s.k == 'if' and reads_of(s.cond, 'wps') and len([x for x in walk_expr(s.cond) if x[0] == 'idx' and x[1] == ('var', 'wps')]) >= 2]
             if not chain:
@@ -1474,8 +1594,8 @@ def rule_best_path_moves(ctx, m):
                 ctx.violation('R-MAP', f.file, fn, 'loop %s move chain' % names[k], 'expected diagonal / left / up arms, found %d' % len(arms), ch.line)
                 continue
 
-            def pos(e):
-                t = sym.from_ir(e, atom=lambda x: {'ri_width': 'RW', 'ri_widthp': 'RWP', 'wpsi': 'Q'}.get(x[1]) if x[0] == 'var' else None)
+            def pos(e, ro=ro):
+                t = sym.from_ir(e, atom=lambda x: {ro['RW']: 'RW', ro['RWP']: 'RWP', ro['Q']: 'Q'}.get(x[1]) if x[0] == 'var' else None)
                 co = dict(t[1]) if t[0] == 'lin' else {}
                 row = 'cur' if co.get('RW') == 1 else ('prev' if co.get('RWP') == 1 else None)
                 return (row, t[2]) if co.get('Q') == 1 and row else None
@@ -1504,20 +1624,7 @@ def rule_best_path_moves(ctx, m):
             ok2 = len(c2) >= 1 and all(o == want_op and a == left and b == up for o, a, b, pen in c2)
             ctx.check(ok2, 'R-MAP', f.file, fn, 'loop %s left/up test' % names[k], 'the second test must compare left (this row, Q-1) with up (previous row, Q%+d); found %s' % (Delta, c2), ch.line)
 
-            def moves(body):
-                mv = {'Q': 0, 'rip': 0, 'cip': 0, 'rowshift': False}
-                for s in body:
-                    if s.k == 'assign' and s.target == ('var', 'wpsi'):
-                        t = sym.from_ir(s.value, atom=lambda x: 'Q' if x == ('var', 'wpsi') else None)
-                        mv['Q'] = t[2] if t[0] == 'lin' and dict(t[1]).get('Q') == 1 else None
-                    if s.k == 'assign' and s.target == ('var', 'rip') and s.d.get('aug') == '-':
-                        mv['rip'] -= 1
-                    if s.k == 'assign' and s.target == ('var', 'cip') and s.d.get('aug') == '-':
-                        mv['cip'] -= 1
-                    if s.k == 'assign' and s.target == ('var', 'ri_width') and s.value == ('var', 'ri_widthp'):
-                        mv['rowshift'] = True
-                return mv
-            md, ml, mu = moves(arms[0][1]), moves(arms[1][1]), moves(arms[2][1])
+            md, ml, mu = _bt_moves(arms[0][1], ro), _bt_moves(arms[1][1], ro), _bt_moves(arms[2][1], ro)
             okm = md == {'Q': Delta - 1, 'rip': -1, 'cip': -1, 'rowshift': True} and ml == {'Q': -1, 'rip': 0, 'cip': -1, 'rowshift': False} \
                 and mu == {'Q': Delta, 'rip': -1, 'cip': 0, 'rowshift': True}
             ctx.check(okm, 'R-MAP', f.file, fn, 'loop %s moves' % names[k],
@@ -1547,7 +1654,11 @@ def rule_best_path_markers(ctx, m):
     loops = [s for s in f.body if s.k == 'while']
     if not loops:
         raise AnalysisError('unrecognised shape: dtw.best_path without a while loop')
-    cur_py = lambda e: e[0] == 'idx' and e[1] == ('var', 'paths') and fmt(e[2]) in ('(i, j)',)
+    lc_ = loops[0].cond
+    if not (lc_[0] == 'bin' and lc_[1] == 'and' and lc_[2][0] == 'bin' and lc_[2][2][0] == 'var' and lc_[3][0] == 'bin' and lc_[3][2][0] == 'var'):
+        raise AnalysisError('unrecognised shape: dtw.best_path loop guard')
+    cur_idx = ('tuple', (lc_[2][2], lc_[3][2]))
+    cur_py = lambda e: e[0] == 'idx' and e[1] == ('var', f.args[0]) and e[2] == cur_idx
     knows = any(_is_marker_test(s.cond, cur_py) for s in walk_stmts(f.body) if s.k == 'if')
 
     def guarded(stmts, under):
@@ -1557,8 +1668,8 @@ def rule_best_path_markers(ctx, m):
             if s.k == 'if':
                 u = under or _is_marker_test(s.cond, cur_py)
                 ok = guarded(s.then, u) and guarded(s.els, u) and ok
-            elif s.k == 'assign' and any(x[0] == 'call' and (dotted(x[1]) or '') in ('argm', 'argmin', 'argmax', 'np.argmin', 'np.argmax') for x in walk_expr(s.value)):
-                ok = ok and under
+            elif s.k == 'assign' and any(x[0] == 'call' and len(x[2]) == 1 and x[2][0][0] == 'list' and len(x[2][0][1]) == 3 for x in walk_expr(s.value)):
+                ok = ok and under         # the move selection: <selector>([three candidates])
             else:
                 for b in sub_blocks(s):
                     ok = guarded(b, under) and ok
@@ -1571,12 +1682,14 @@ def rule_best_path_markers(ctx, m):
     else:
         ctx.held('R-PSI', 'dtw.best_path does not interpret markers')
     # C
-    cur_c = lambda e: e[0] == 'idx' and e[1] == ('var', 'wps') and fmt(e[2]).replace('(', '').replace(')', '') == 'ri_width + wpsi'
     for fn in ('dtw_best_path', 'dtw_best_path_customstart', 'dtw_best_path_isclose', 'dtw_best_path_prob'):
         cf = m.cfunc(fn)
         if cf is None:
             raise AnalysisError('anchor vanished: C function %s' % fn)
         wl = [s for s in cf.body if s.k == 'while']
+        ro = _bt_roles(cf, wl)
+        cur_c = lambda e, ro=ro: e[0] == 'idx' and e[1] == ('var', 'wps') and e[2] in (('bin', '+', ('var', ro['RW']), ('var', ro['Q'])), ('bin', '+', ('var', ro['Q']), ('var', ro['RW'])))
+        movers = (('var', ro['rip']), ('var', ro['cip']))
         knows = any(_is_marker_test(s.cond, cur_c) for s in walk_stmts(cf.body) if s.k == 'if')
         if not knows:
             ctx.held('R-PSI', '%s does not interpret markers' % fn)
@@ -1590,10 +1703,10 @@ def rule_best_path_markers(ctx, m):
                 if s.k == 'if' and _is_marker_test(s.cond, cur_c):
                     if any(t.k == 'continue' for t in s.then):
                         under = True
-                    elif any(t.k == 'assign' and t.target in (('var', 'rip'), ('var', 'cip')) for t in walk_stmts(s.els)):
+                    elif any(t.k == 'assign' and t.target in movers for t in walk_stmts(s.els)):
                         under = True          # moves live in the else branch of the marker test
                     continue
-                if s.k == 'if' and any(t.k == 'assign' and t.target in (('var', 'rip'), ('var', 'cip')) for t in walk_stmts([s])):
+                if s.k == 'if' and any(t.k == 'assign' and t.target in movers for t in walk_stmts([s])):
                     ok = ok and under
             okall = okall and ok
         ctx.check(okall, 'R-PSI', cf.file, fn, 'marked end run',
@@ -1628,22 +1741,49 @@ def rule_pyx_path_assembly(ctx, m):
             if a[0] == 'un' and a[1] == 'addr' and a[2][0] == 'var' and 'length' in a[2][1]:
                 plen = a[2][1]
         n += 1
-        loops = [s_ for s_ in walk_stmts(f.body) if s_.k == 'for' and any(x[0] == 'call' and fmt(x[1]).endswith('.append') for t in s_.body for e in stmt_exprs(t) for x in walk_expr(e))]
+        has_app = lambda s_: any(x[0] == 'call' and fmt(x[1]).endswith('.append') for t in s_.body for e in stmt_exprs(t) for x in walk_expr(e))
+        loops = [s_ for s_ in walk_stmts(f.body) if s_.k in ('for', 'while') and has_app(s_)]
         ok = len(loops) == 1 and plen is not None
         why = ''
         if ok:
             lp = loops[0]
-            ok_rng = lp.lo == ('num', 0) and lp.hi == ('var', plen) and not lp.d.get('inclusive') and lp.step in (None, ('num', 1))
-            app = [x for t in lp.body for e in stmt_exprs(t) for x in walk_expr(e) if x[0] == 'call' and fmt(x[1]).endswith('.append')]
-            want = ('tuple', (('idx', ('var', a1), ('var', lp.var)), ('idx', ('var', a2), ('var', lp.var))))
-            ok_app = len(app) == 1 and len(app[0][2]) == 1 and app[0][2][0] == want
+            # the order in which the recorded entries are visited: ascending (0 .. n-1) or descending (n-1 .. 0)
+            order = None
+            body = lp.body
+            if lp.k == 'for':
+                kv = ('var', lp.var)
+                if lp.lo == ('num', 0) and lp.hi == ('var', plen) and not lp.d.get('inclusive') and lp.step in (None, ('num', 1)):
+                    order = 'asc'
+            else:
+                # k = n; while k > 0: k -= 1; use k
+                c_ = lp.cond
+                kv = c_[2] if c_[0] == 'bin' and c_[2][0] == 'var' else None
+                first = body[0] if body else None
+                dec_first = first is not None and first.k == 'assign' and first.target == kv and first.value == ('bin', '-', kv, ('num', 1))
+                guard_ok = kv is not None and ((c_[1] == '>' and c_[3] == ('num', 0)) or (c_[1] == '>=' and c_[3] == ('num', 1)))
+                inits = [s_ for s_ in walk_stmts(f.body) if s_.k == 'assign' and s_.target == kv and s_.line < lp.line]
+                others = [s_ for s_ in walk_stmts(body[1:]) if s_.k == 'assign' and s_.target == kv]
+                if dec_first and guard_ok and inits and inits[-1].value == ('var', plen) and not others and not any(t.k == 'continue' for t in walk_stmts(body)):
+                    order = 'desc'
+                    body = body[1:]
+            app = [x for t in body for e in stmt_exprs(t) for x in walk_expr(e) if x[0] == 'call' and fmt(x[1]).endswith('.append')]
+            ok_app = False
+            if order is not None and len(app) == 1 and len(app[0][2]) == 1 and app[0][2][0][0] == 'tuple' and len(app[0][2][0][1]) == 2:
+                e1, e2 = app[0][2][0][1]
+                mirrored = (('bin', '-', ('bin', '-', ('var', plen), ('num', 1)), kv), ('bin', '-', ('bin', '-', ('var', plen), kv), ('num', 1)))
+                if e1[0] == 'idx' and e2[0] == 'idx' and e1[1] == ('var', a1) and e2[1] == ('var', a2) and e1[2] == e2[2]:
+                    if e1[2] == kv:
+                        ok_app = True
+                    elif e1[2] in mirrored:
+                        ok_app = True
+                        order = 'desc' if order == 'asc' else 'asc'
             lst = fmt(app[0][1])[:-len('.append')] if app else None
             revs = [s_ for s_ in walk_stmts(f.body) if s_.k == 'expr' and s_.value[0] == 'call' and fmt(s_.value[1]) == '%s.reverse' % lst]
-            ok_rev = len(revs) == 1 and revs[0].line > lp.line
-            ok = ok_rng and ok_app and ok_rev
-            why = 'range ok=%s, element ok=%s, reversed once after the loop=%s' % (ok_rng, ok_app, ok_rev)
+            ok_rev = all(r_.line > lp.line for r_ in revs) and ((order == 'asc' and len(revs) == 1) or (order == 'desc' and len(revs) == 0))
+            ok = order is not None and ok_app and ok_rev
+            why = 'visiting order=%s, element ok=%s, reversals after the loop=%d' % (order, ok_app, len(revs))
         ctx.check(ok, 'R-PATH', pyx.path, q, 'path assembly',
-                  'the path must be rebuilt as [(%s[k], %s[k]) for k in range(%s)] and reversed exactly once (the C routine records it end-first); %s' % (a1, a2, plen, why), st.line)
+                  'the C routine records the path end-first: it must be rebuilt from all of (%s[k], %s[k]), k < %s, so that the last recorded entry comes first (ascending visit + one reverse, or descending visit); %s' % (a1, a2, plen, why), st.line)
     ctx.check(n >= 5, 'R-PATH', pyx.path, '<module>', 'path-assembling wrappers', 'expected the five wrappers around C back-trackers, found %d' % n, 1)
 
 
@@ -1669,29 +1809,20 @@ def rule_best_path_prob_moves(ctx, m):
         ctx.violation('R-MAP', f.file, fn, 'back-tracking loops', 'expected three region loops, found %d' % len(loops), f.line)
         return
 
+    ro = _bt_roles(f, loops)
+
     def pos(e):
-        t = sym.from_ir(e, atom=lambda x: {'ri_width': 'RW', 'ri_widthp': 'RWP', 'wpsi': 'Q'}.get(x[1]) if x[0] == 'var' else None)
+        t = sym.from_ir(e, atom=lambda x: {ro['RW']: 'RW', ro['RWP']: 'RWP', ro['Q']: 'Q'}.get(x[1]) if x[0] == 'var' else None)
         co = dict(t[1]) if t[0] == 'lin' else {}
         row = 'cur' if co.get('RW') == 1 else ('prev' if co.get('RWP') == 1 else None)
         return (row, t[2]) if co.get('Q') == 1 and row else None
 
     def moves(body):
-        mv = {'Q': 0, 'rip': 0, 'cip': 0, 'rowshift': False}
-        for s_ in body:
-            if s_.k == 'assign' and s_.target == ('var', 'wpsi'):
-                t = sym.from_ir(s_.value, atom=lambda x: 'Q' if x == ('var', 'wpsi') else None)
-                mv['Q'] = t[2] if t[0] == 'lin' and dict(t[1]).get('Q') == 1 else None
-            if s_.k == 'assign' and s_.target == ('var', 'rip') and s_.d.get('aug') == '-':
-                mv['rip'] -= 1
-            if s_.k == 'assign' and s_.target == ('var', 'cip') and s_.d.get('aug') == '-':
-                mv['cip'] -= 1
-            if s_.k == 'assign' and s_.target == ('var', 'ri_width') and s_.value == ('var', 'ri_widthp'):
-                mv['rowshift'] = True
-        return mv
+        return _bt_moves(body, ro)
     for k, lp in enumerate(loops):
         Delta = shifts[k]
         c = lp.cond
-        okg = c[0] == 'bin' and c[1] == 'and' and c[2] == ('bin', '>', ('var', 'rip'), guards_want[k]) and c[3] == ('bin', '>', ('var', 'cip'), ('num', 0))
+        okg = c[0] == 'bin' and c[1] == 'and' and c[2] == ('bin', '>', ('var', ro['rip']), guards_want[k]) and c[3] == ('bin', '>', ('var', ro['cip']), ('num', 0))
         ctx.check(okg, 'R-MAP', f.file, fn, 'loop %s guard' % names[k], 'the %s loop must run while rip > %s and cip > 0; found %s' % (names[k], fmt(guards_want[k]), fmt(c)), lp.line)
         # candidates: first assignment probs[k] = prev - wps[...]
         cand = {}
